@@ -441,7 +441,7 @@ int main(int argc, char **argv) {
     printf("case %s\n", cases[c].first.c_str()); fflush(stdout);
     pid_t pid = nofork ? 0 : fork();
     if (pid == 0) {
-      if (!nofork) alarm(30);      // a case that hangs is a crash, not a stalled check
+      if (!nofork) alarm(10);      // a case that hangs is a crash, not a stalled check
       { std::vector<Ctx *> slots(1, new Ctx()); size_t cur = 0;
         for (size_t k = 0; k < cases[c].second.size(); k++) {
           const std::string &ln = cases[c].second[k];
